@@ -4,7 +4,7 @@
    dx = (b - a)/n_segments, so that t_p = a (domain_min) and t_{n_segments+p} = b (domain_max). *)
 From Coq Require Import List Reals QArith.
 From Coquelicot Require Import Coquelicot.
-From FDAV Require Import Base.Num Base.Vec Model.Basis Model.Poly Model.Simpson Lemmas.Vec Lemmas.Basis Lemmas.Legendre Lemmas.Ortho Lemmas.Simpson Gen.BasisForms Lemmas.GenBasisForms Lemmas.Greville Lemmas.Marsden2.
+From FDAV Require Import Base.Num Base.Vec Model.Basis Model.Poly Model.Simpson Lemmas.Vec Lemmas.Basis Lemmas.Legendre Lemmas.Ortho Lemmas.Simpson Gen.BasisForms Lemmas.GenBasisForms Lemmas.Greville Lemmas.Marsden2 Lemmas.PolyInt.
 Import ListNotations.
 Local Open Scope R_scope.
 
@@ -51,8 +51,9 @@ Print Assumptions C18_bs_partition_of_unity.
    recurrence on coefficient lists; those polynomials are orthogonal on [-1,1] with squared norm
    2/(2k+1) for ALL DEGREES <= 15 (the property's range), by exact polynomial integration — a finite
    check (vm_compute in Q, lifted by forallb_forall and the Q/R transfer).
-   C18_legendre_orthogonal_partial: not the unbounded claim (all degrees), and the identification of the
-   exact polynomial integral with the Riemann integral is not re-proved. *)
+   The exact polynomial integral IS the Riemann integral (C18_poly_integral_is_RInt, end of file), so the
+   orthogonality is also stated with Coquelicot's is_RInt (C18_legendre_RInt_*).
+   C18_legendre_orthogonal_partial: not the unbounded claim (all degrees) — the property quantifies sizes 1..15. *)
 Theorem C18_legendre_is_polynomial : forall k x, peval opsR (leg_poly opsR k) x = legendre opsR k x.
 Proof. exact leg_poly_eval. Qed.
 Print Assumptions C18_legendre_is_polynomial.
@@ -178,3 +179,17 @@ Theorem C18_marsden_quadratic_any_knots : forall t, (forall i, t i < t (S i)) ->
   t (lo + p)%nat <= x < t (lo + n)%nat -> (p < n)%nat -> E_ t p lo n x = c2 p * (x * x).
 Proof. exact marsden2. Qed.
 Print Assumptions C18_marsden_quadratic_any_knots.
+
+(* the exact integral of a coefficient list over [-1,1] is the Riemann integral of the polynomial function; hence
+   Legendre orthogonality (degrees <= 15) as Riemann integrals of the values computed by Bonnet's recurrence *)
+Theorem C18_poly_integral_is_RInt : forall p, is_RInt (fun x => peval opsR p x) (-1) 1 (pint11 opsR p).
+Proof. exact pint11_is_RInt. Qed.
+Print Assumptions C18_poly_integral_is_RInt.
+Theorem C18_legendre_RInt_orthogonal : forall j k, (j <= 15)%nat -> (k <= 15)%nat -> j <> k ->
+  is_RInt (fun x => legendre opsR j x * legendre opsR k x) (-1) 1 0.
+Proof. exact legendre_RInt_orthogonal. Qed.
+Print Assumptions C18_legendre_RInt_orthogonal.
+Theorem C18_legendre_RInt_norm : forall k, (k <= 15)%nat ->
+  is_RInt (fun x => legendre opsR k x * legendre opsR k x) (-1) 1 (2 / INR (2 * k + 1)).
+Proof. exact legendre_RInt_norm. Qed.
+Print Assumptions C18_legendre_RInt_norm.
